@@ -154,6 +154,7 @@ func main() {
 
 	shapeCheck(r, tc)
 	iterateCheck(r, tc)
+	iterateJumpCheck(r, tc)
 	runExec(r, tc)
 
 	r.Finish("programs: one struct + 2-5 methods over u8/u16/u32/u64 (refined or not), bool, arrays, consts; all " +
